@@ -87,9 +87,16 @@ def gen_case(rnd, cid):
         meta = {"shape": "aget", "op": "aget", "kinds": f"n{n}"}
     elif shape < 0.9:
         rc = b.operand("B", value=rnd.choice([0, 1]))
-        rt = b.operand("L", value=rnd.randrange(-half, half)); rf = b.operand("L", value=rnd.randrange(-half, half))
+        if rnd.random() < 0.3:
+            # two boolean branches: the result is a LinCombBool built WITHOUT a constraint of its own; it is determined and 0/1 on
+            # every satisfying assignment because the condition and both branches are (C02: iteBB_d)
+            rt = b.operand("B", value=rnd.choice([0, 1])); rf = b.operand("B", value=rnd.choice([0, 1]))
+            kinds = "BBB"
+        else:
+            rt = b.operand("L", value=rnd.randrange(-half, half)); rf = b.operand("L", value=rnd.randrange(-half, half))
+            kinds = "BLL"
         rr = b.emit(f"ite r{rc} r{rt} r{rf}", "?")
-        meta = {"shape": "ite", "op": "ite", "kinds": "BLL"}
+        meta = {"shape": "ite", "op": "ite", "kinds": kinds}
     else:
         m = rnd.choice(["check_positive", "check_zero", "check_nonzero", "to_bits"])
         v = rnd.choice([0, 1, half - 1, half, -1, -half, rnd.randrange(-half, half)])
